@@ -397,7 +397,9 @@ def startPost (o : Opts) (st3 : St) (name : List Char) (rest : List HTok) (mt : 
   let st4 := { st3 with omitSpace := updOmitSpace o name st3.omitSpace }
   let st5 := match mt with | some m => { st4 with rawMediatype := m } | none => st4
   let st6 := { st5 with dropText := hashIs name "select" || hashIs name "optgroup" }
-  let sameEnd := match rest with | .endTag n _ :: _ => hashOf n == hashOf name | _ => false
+  -- the look at the next token happens after a text token was skipped (select/optgroup)
+  let rest' := if st6.dropText then (match rest with | .text _ false :: r => r | _ => rest) else rest
+  let sameEnd := match rest' with | .endTag n _ :: _ => hashOf n == hashOf name | _ => false
   if tagTraits name = C03Tables.normalTag && sameEnd then { st6 with omitSpace := false } else st6
 
 def step (o : Opts) (ext : Ext) (sub : Sub) (st : St) (t : HTok) (rest : List HTok) :
